@@ -682,6 +682,9 @@ class Run:
                     return False
                 return z3.Length(self.seq(v)) > 0
             cls = self.cls_of(v)
+            if cls == "dict":
+                # the dict abstraction of the contracts: (keys, labels); empty dict is falsy
+                return z3.Length(self.obj(v)["keys"]) > 0
             if self.program.find_method(cls, "__bool__"):
                 return self.truth(self.call_method(v, "__bool__", [], {}, None))
             if self.program.find_method(cls, "__len__"):
@@ -942,7 +945,9 @@ class Run:
 
     def call(self, f: Any, args: list[Any], kwargs: dict[str, Any], n: ast.AST | None) -> Any:  # noqa: PLR0911
         if not isinstance(f, ClassV) and any(isinstance(a, tuple) and a and a[0] == "$star" for a in args):
-            raise OutOfDialect("star-args", n)
+            # star-args reach only constructor contracts and external-call contracts of the spec (which must accept the marker)
+            if not (isinstance(f, ModuleV) and getattr(self.spec, "call_external", None) is not None):
+                raise OutOfDialect("star-args", n)
         if isinstance(f, LocalFn):
             h = getattr(self.spec, "call_local", None)
             if h is not None:
